@@ -2921,3 +2921,201 @@ def gen_EngineLife(repo):
     L.append("def engineSpaceTypeAssigns : List String := %s" % strs(st))
     L.append("\nend Strengths.Gen")
     return "\n".join(L) + "\n"
+
+
+# =============================================================================================
+# Stoch (builder "stoch": C07, C02, C14): the statement lists of the stochastic / Euler step functions of
+# the six algorithms and the two base classes, GenerateStochasticDistribution, the init-state dispatch
+# of engine.cpp, the Poisson/normal switch, and the Python-side accepted modes / default.
+# =============================================================================================
+def _cpp_stmts(body):
+    """normalised statement list of a C++ block: blanks removed, split at ';', '{', '}' (kept)"""
+    stmts, cur, par = [], "", 0
+    for ch in body:
+        if ch == "(":
+            par += 1
+        elif ch == ")":
+            par -= 1
+        if ch in "{}" and par == 0:
+            if cur.strip():
+                stmts.append(re.sub(r"\s+", "", cur))
+            cur = ""
+            stmts.append(ch)
+        elif ch == ";" and par == 0:
+            stmts.append(re.sub(r"\s+", "", cur))
+            cur = ""
+        else:
+            cur += ch
+    if cur.strip():
+        stmts.append(re.sub(r"\s+", "", cur))
+    return [s for s in stmts if s]
+
+
+def _balanced(text, i):
+    """text[i] == '{' -> index of the matching '}'"""
+    depth, j = 0, i
+    while j < len(text):
+        if text[j] == "{":
+            depth += 1
+        elif text[j] == "}":
+            depth -= 1
+            if depth == 0:
+                return j
+        j += 1
+    raise AnchorLost("unbalanced braces")
+
+
+@group
+def gen_Stoch(repo):
+    def strs(l):
+        return lean_list([lean_str(x) for x in l])
+    L = ["namespace Strengths.Gen\n"]
+    eng = _cpp(repo, "engine.cpp")
+
+    # ---- GenerateStochasticDistribution
+    body = cpp_function_body(eng, r"GenerateStochasticDistribution\s*\([^)]*\)\s*")
+    stm = _cpp_stmts(body)
+    m = re.search(r"if\s*\(\s*mesh_x\[i\]\s*<\s*([0-9.eE+-]+)\s*\)", body)
+    if not m:
+        raise AnchorLost("GenerateStochasticDistribution Poisson/normal switch")
+    L.append("/-- `GenerateStochasticDistribution`: below this amount an entry is a Poisson draw, from it on a floored normal draw -/")
+    L.append("def poissonNormalSwitch : Rat := %s" % lean_rat(Fraction(m.group(1))))
+    L.append("/-- `GenerateStochasticDistribution`, whole body as a normalised statement list -/")
+    L.append("def gsdBody : List String := %s" % strs(stm))
+    # the draw target and the scan of the correction loop
+    m = re.search(r"double\s+target\s*=\s*([^;]+);", body)
+    if not m:
+        raise AnchorLost("GenerateStochasticDistribution target")
+    L.append("def gsdTarget : String := %s" % lean_str(re.sub(r"\s+", "", m.group(1))))
+    m = re.search(r"cumul\s*\+=\s*mesh_x\[([^\]]+)\]\s*;\s*if\s*\(([^)]*)\)", body)
+    if not m:
+        raise AnchorLost("GenerateStochasticDistribution scan")
+    nm = {"i": "i", "s": "s", "n_species": "ns"}
+    L.append("/-- index of entry (cell i, species s) in the cell-major arrays of `GenerateStochasticDistribution` -/")
+    L.append("def gsdIndex (ns s i : Int) : Int := %s" % CppExpr(m.group(1), nm).parse())
+    L.append("def gsdHitCond : String := %s\n" % lean_str(re.sub(r"\s+", "", m.group(2))))
+
+    # ---- init-state dispatch: (condition, statements of the branch) in order, then the else branch
+    for tag, fr in (("Grid", r"int\s+engineexport_initialize_grid\s*\("), ("Graph", r"int\s+engineexport_initialize_graph\s*\(")):
+        b = cpp_function_body(eng, fr)
+        pos = b.find("is_stochastic")
+        if pos < 0:
+            raise AnchorLost("engine.cpp is_stochastic " + tag)
+        m = re.search(r"bool\s+is_stochastic\s*=\s*([^;]+);", b)
+        if not m:
+            raise AnchorLost("engine.cpp is_stochastic definition " + tag)
+        L.append("def isStochasticDef%s : String := %s" % (tag, lean_str(re.sub(r"\s+", "", m.group(1)))))
+        branches = []
+        cur = m.end()
+        while True:
+            mm = re.compile(r"\s*(?:else\s+)?if\s*\(").match(b, cur)
+            if not mm:
+                break
+            # balanced parenthesis of the condition
+            i = mm.end() - 1
+            depth, j = 0, i
+            while True:
+                if b[j] == "(":
+                    depth += 1
+                elif b[j] == ")":
+                    depth -= 1
+                    if depth == 0:
+                        break
+                j += 1
+            cond = re.sub(r"\s+", "", b[i + 1:j])
+            k = b.index("{", j)
+            e = _balanced(b, k)
+            branches.append((cond, _cpp_stmts(b[k + 1:e])))
+            cur = e + 1
+        mm = re.compile(r"\s*else\s*\{").match(b, cur)
+        if not mm or not branches:
+            raise AnchorLost("engine.cpp init_state_processing dispatch " + tag)
+        e = _balanced(b, mm.end() - 1)
+        branches.append(("else", _cpp_stmts(b[mm.end():e])))
+        if not all("init_state_processing" in c for c, _ in branches[:-1]):
+            raise AnchorLost("engine.cpp init_state_processing dispatch conditions " + tag)
+        L.append("/-- the `init_state_processing` dispatch: (condition, statements) per branch, `else` last -/")
+        L.append("def initBranches%s : List (String × List String) := %s" %
+                 (tag, lean_list(["(%s, %s)" % (lean_str(c), strs(s)) for c, s in branches])))
+        # what Init receives as the state
+        mi = re.search(r"global_(?:grid|graph)_algo\s*->\s*Init\s*\(", b)
+        if not mi:
+            raise AnchorLost("engine.cpp Init call " + tag)
+        args = b[mi.end():]
+        L.append("def initPassesMeshX%s : Bool := %s" % (tag, "true" if re.search(r"\bmesh_x\s*,", args) else "false"))
+    L.append("")
+
+    # ---- step functions of the algorithms (normalised statement lists)
+    def fn_stmts(fname, regex):
+        return _cpp_stmts(cpp_function_body(_cpp(repo, fname), regex))
+    items = [
+        ("reactionProp", r"double\s+ReactionProp\s*\([^)]*\)\s*", "SimulationAlgorithm3DBase.hpp", "SimulationAlgorithmGraphBase.hpp"),
+        ("diffusionProp", r"double\s+DiffusionProp\s*\([^)]*\)\s*", "SimulationAlgorithm3DBase.hpp", "SimulationAlgorithmGraphBase.hpp"),
+        ("diffusionRate", r"double\s+DiffusionRate\s*\([^)]*\)\s*", "SimulationAlgorithm3DBase.hpp", "SimulationAlgorithmGraphBase.hpp"),
+        ("diffusionRateDifference", r"double\s+DiffusionRateDifference\s*\([^)]*\)\s*", "SimulationAlgorithm3DBase.hpp", "SimulationAlgorithmGraphBase.hpp"),
+        ("reactionRate", r"double\s+ReactionRate\s*\([^)]*\)\s*", "SimulationAlgorithm3DBase.hpp", "SimulationAlgorithmGraphBase.hpp"),
+        ("poissonFn", r"int\s+Poisson\s*\([^)]*\)\s*", "SimulationAlgorithm3DBase.hpp", "SimulationAlgorithmGraphBase.hpp"),
+        ("buildMeshKr", r"void\s+Build_mesh_kr\s*\([^)]*\)\s*", "SimulationAlgorithm3DBase.hpp", "SimulationAlgorithmGraphBase.hpp"),
+        ("buildMeshKd", r"void\s+Build_mesh_kd\s*\([^)]*\)\s*", "SimulationAlgorithm3DBase.hpp", "SimulationAlgorithmGraphBase.hpp"),
+        ("computePropensities", r"void\s+ComputePropensities\s*\(\s*\)\s*", "Gillespie3D.hpp", "GillespieGraph.hpp"),
+        ("applyReaction", r"void\s+ApplyReaction\s*\([^)]*\)\s*", "Gillespie3D.hpp", "GillespieGraph.hpp"),
+        ("applyDiffusion", r"void\s+ApplyDiffusion\s*\([^)]*\)\s*", "Gillespie3D.hpp", "GillespieGraph.hpp"),
+        ("drawAndApplyEvent", r"void\s+DrawAndApplyEvent\s*\(\s*\)\s*", "Gillespie3D.hpp", "GillespieGraph.hpp"),
+        ("computeNevt", r"void\s+Compute_nevt\s*\(\s*\)\s*", "TauLeap3D.hpp", "TauLeapGraph.hpp"),
+        ("applyNevt", r"void\s+Apply_nevt\s*\(\s*\)\s*", "TauLeap3D.hpp", "TauLeapGraph.hpp"),
+        ("computeDxdt", r"void\s+Compute_dxdt\s*\(\s*\)\s*", "Euler3D.hpp", "EulerGraph.hpp"),
+        ("applyDxdt", r"void\s+Apply_dxdt\s*\(\s*\)\s*", "Euler3D.hpp", "EulerGraph.hpp"),
+    ]
+    for name, rx, f3, fg in items:
+        L.append("def %sGrid : List String := %s" % (name, strs(fn_stmts(f3, rx))))
+        L.append("def %sGraph : List String := %s" % (name, strs(fn_stmts(fg, rx))))
+    L.append("def setNeighborsGraph : List String := %s" %
+             strs(fn_stmts("SimulationAlgorithmGraphBase.hpp", r"void\s+SetNeighbors\s*\([^)]*\)\s*")))
+    # rng / uniform set-up in Init (seeded from the argument, uniform on [0,1))
+    for tag, fname in (("Grid", "SimulationAlgorithm3DBase.hpp"), ("Graph", "SimulationAlgorithmGraphBase.hpp")):
+        t = _cpp(repo, fname)
+        m1 = re.search(r"this->rng\s*=\s*([^;]+);", t)
+        m2 = re.search(r"this->uiud\s*=\s*([^;]+);", t)
+        if not m1 or not m2:
+            raise AnchorLost("rng / uiud set-up in Init " + tag)
+        L.append("def rngInit%s : List String := %s" % (tag, strs([re.sub(r"\s+", "", m1.group(1)), re.sub(r"\s+", "", m2.group(1))])))
+    L.append("")
+
+    # ---- Python side: accepted modes, default, how the mode reaches the engine
+    src = PySrc(repo, "src/strengths/rdscript.py")
+    setter = None
+    for n in ast.walk(src.tree):
+        if isinstance(n, ast.FunctionDef) and n.name == "init_state_processing" and len(n.args.args) == 2:
+            setter = n
+    if setter is None:
+        raise AnchorLost("rdscript.py:init_state_processing setter")
+    modes = None
+    for n in ast.walk(setter):
+        if isinstance(n, ast.Compare) and len(n.ops) == 1 and isinstance(n.ops[0], (ast.NotIn, ast.In)) \
+                and isinstance(n.comparators[0], (ast.List, ast.Tuple)):
+            modes = str_list(n.comparators[0])
+            # must be `if not x in [...] : raise`  or  `if x not in [...] : raise`
+    if modes is None:
+        raise AnchorLost("rdscript.py:init_state_processing accepted list")
+    raises = any(isinstance(n, ast.Raise) for n in ast.walk(setter))
+    L.append("/-- `RDScript.init_state_processing` setter: accepted values (anything else raises) -/")
+    L.append("def pyInitModes : List String := %s" % strs(modes))
+    L.append("def pyInitModesGuarded : Bool := %s" % ("true" if raises else "false"))
+    init = src.func("__init__", cls="RDScript")
+    default = None
+    args = init.args
+    names = [a.arg for a in args.args]
+    defaults = [None] * (len(names) - len(args.defaults)) + list(args.defaults)
+    for nme, dflt in zip(names, defaults):
+        if nme == "init_state_processing" and dflt is not None:
+            default = const_str(dflt)
+    if default is None:
+        raise AnchorLost("rdscript.py:RDScript.__init__ default of init_state_processing")
+    L.append("def pyInitModeDefault : String := %s" % lean_str(default))
+    lre = PySrc(repo, "src/strengths/librdengine.py")
+    passed = re.findall(r"ctypes\.c_char_p\(\s*script\.init_state_processing\.encode\(\)\s*\)", lre.text)
+    L.append("/-- number of `engineexport_initialize_*` calls that pass `script.init_state_processing` unchanged -/")
+    L.append("def pyInitModePassed : Nat := %d" % len(passed))
+    # engine_collection: which options require molecules (quantity unit forced to 'molecule')
+    L.append("\nend Strengths.Gen")
+    return "\n".join(L) + "\n"
